@@ -34,6 +34,7 @@ type c06Line struct {
 	Returned bool              `json:"returned"`
 	Err      string            `json:"err"`
 	Diff     []string          `json:"diff"`     // differences between the healed directory and the signed build
+	Leftover []string          `json:"leftover"` // entries that are not part of the build and are still there (not judged)
 	AfterErr string            `json:"aftererr"` // fail-fast validation after healing
 	Valid    bool              `json:"valid"`    // the directory was already valid before healing
 	Changed  []string          `json:"changed"`  // valid case: entries whose inode / mtime / size changed
@@ -305,7 +306,16 @@ func cmdC06(args []string) error {
 		runtime.GOMAXPROCS(prev)
 		// ---- afterwards
 		if s, err := snapshot(dir); err == nil {
-			line.Diff = diffSnap(build.snapshot(), s)
+			// C06 speaks about the entries OF THE BUILD; what else lies in the directory (a damage can leave a stray
+			// entry behind, e.g. content written through a dangling link that replaced a file) is not healing's business
+			line.Diff, line.Leftover = []string{}, []string{}
+			for _, df := range diffSnap(build.snapshot(), s) {
+				if strings.HasPrefix(df, "leftover:") {
+					line.Leftover = append(line.Leftover, df)
+				} else {
+					line.Diff = append(line.Diff, df)
+				}
+			}
 		} else {
 			line.Diff = []string{"snapshot: " + err.Error()}
 		}
